@@ -22,7 +22,10 @@ def run(tier):
     outs = {o["id"]: o["obs"] for o in vlib.read_ndjson(cout)}
     # the produced bytes are judged by the specification's strict decoders
     produced = [{"id": c["id"], "kind": c["kind"], "bytes": outs[c["id"]]["bytes"]} for c in cases
-                if outs[c["id"]].get("ok") and c["kind"] in ("hs", "record", "exts", "ccs_msg")]
+                if outs[c["id"]].get("ok") and c["kind"] in ("hs", "record", "exts", "ccs_msg", "from_bytes")]
+    for e in produced:
+        if e["kind"] == "from_bytes":
+            e["kind"] = "record"
     ev = os.path.join(d, "produced.ndjson")
     vlib.write_ndjson(ev, produced)
     _, res2, verdicts = vlib.tlc_chunked(PROP, "trace", "Trace_C09", nchunks=8, env={"VERIF_IN": ev}, out_name="verdict")
@@ -63,7 +66,7 @@ def run(tier):
                 why = "re-serializing the parsed value does not reproduce the same bytes"
             elif o["direct"] != o["bytes"]:
                 why = "the handshake-level and message-level serializers disagree"
-            elif kind == "record" and o["hdr"]["len"] != len(o["bytes"]) - 5:
+            elif kind in ("record", "from_bytes") and o["hdr"]["len"] != len(o["bytes"]) - 5:
                 why = "record length field %s for %s payload bytes" % (o["hdr"]["len"], len(o["bytes"]) - 5)
             if why is None and c["ser"] and o["bytes"] != c["ser"]:
                 rep.cov["advisory_mismatches"] += 1
